@@ -4,6 +4,7 @@
    plus the raw row's parents / children). *)
 From Coq Require Import List ZArith Bool String.
 From Artap Require Export Base.Ord Model.Store.
+From Artap Require Import Proofs.StoreProofs.
 Import ListNotations.
 Local Open Scope Z_scope.
 Local Open Scope string_scope.
@@ -73,3 +74,39 @@ Definition rows_eqb (model expected : list (Z * option (list jv))) : bool :=
 
 Definition c10_eqb (model expected : c10_obs) : bool :=
   meta_eqb (fst model) (fst expected) && rows_eqb (snd model) (snd expected).
+
+(* ---- large histories (red-team round 3): hundreds to thousands of recorded individuals.
+   Evaluating `exec` on them in every run would be wasteful; the driver uses the PROVED closed form of the
+   table instead (StoreProofs.upsert_one_row_last_wins / row_count): after any history on a store created empty
+   the table has one row per distinct id, and the row of an id is the image of its last synchronisation.
+   A case gives the number of distinct ids of the history (counted by the harness from its own description of
+   the history, never from artap) and, for a sample of ids (block boundaries of every plausible block size,
+   first / last positions, random ones), the last image of that id; the observation is the raw row count and
+   the fields the view shows for the sampled ids.  `c10_big_sound` ties this driver to `exec`. *)
+Record c10_big := { b_rows : Z; b_samples : list (Z * option individual) }.
+Definition c10_big_obs := (Z * list (Z * option (option (list jv))))%type.
+
+Definition c10_big_run (c : c10_big) : c10_big_obs :=
+  (b_rows c, map (fun s => (fst s, option_map (fun x => row_fields (to_dict x)) (snd s))) (b_samples c)).
+
+Definition c10_big_eqb (model expected : c10_big_obs) : bool :=
+  Z.eqb (fst model) (fst expected) &&
+  list_eqb (fun a b => Z.eqb (fst a) (fst b) && opt_eqb (opt_eqb (list_eqb jv_eqb)) (snd a) (snd b))
+           (snd model) (snd expected).
+
+(* the closed form is what `exec` computes: for every history `ops` whose distinct ids number `b_rows c` and
+   whose last synchronisation of each sampled id is the sampled image (None = never synchronised) *)
+Lemma c10_big_sound : forall ops c,
+  Z.of_nat (List.length (nodup Z.eq_dec (map i_id (flatten ops)))) = b_rows c ->
+  (forall id x, In (id, x) (b_samples c) -> last_sync id (flatten ops) = x) ->
+  let st := exec ops [] in
+  c10_big_run c =
+  (Z.of_nat (List.length st),
+   map (fun s => (fst s, option_map row_fields (lookup (fst s) st))) (b_samples c)).
+Proof.
+  intros ops c Hn Hs st. unfold c10_big_run. f_equal.
+  - unfold st. rewrite row_count. symmetry. exact Hn.
+  - apply map_ext_in. intros [id x] Hin. simpl. f_equal.
+    destruct (upsert_one_row_last_wins ops [] (NoDup_nil _)) as [_ [Hl _]]. cbv zeta in Hl.
+    unfold st. rewrite Hl. rewrite (Hs id x Hin). destruct x; reflexivity.
+Qed.
